@@ -202,7 +202,16 @@ def rhOut (out : Tile.ReadOut H) (gtiles : List GTile) (data : List Bytes) (msg 
   ((match out.result with | .ok hs => (hs, none) | .error _ => ([], msg)),
    (match out.saved with | some _ => [(gtiles, data)] | none => []))
 
-theorem ReadHashes_eq (fuel h N : Nat) (th : H) (idx : List Nat) (RT : List GTile → List Bytes × Option String)
+/-- which `badTile` text: given that `ReadTiles` returned no error and the right number of tiles, a failed width check gives
+    the "(%v len=%d, want %d)" text, and a `badTile` after a passed width check is one of the three `HashFromTile` texts -/
+def MsgRefine (tiles : List Tile.Tile) (data : List Bytes) (rerr : Option String) (res : Except Tlog.Err (List H))
+    (msg : Option String) : Prop :=
+  rerr = none → data.length = tiles.length →
+    (Tile.widthsOk tiles (data.map (unflatS ofBytes)) = false →
+      msg = some "TileReader returned bad result slice (%v len=%d, want %d)") ∧
+    (Tile.widthsOk tiles (data.map (unflatS ofBytes)) = true → res = .error .badTile → ∃ s, HftMsg s ∧ msg = some s)
+
+theorem ReadHashes_eq_msg (fuel h N : Nat) (th : H) (idx : List Nat) (RT : List GTile → List Bytes × Option String)
     (serve : Tile.Tile → Option (List H)) (h1 : 1 ≤ h) (h57 : h ≤ 57) (hN : N < 2 ^ 62)
     (hserve : ServeRel ofBytes RT serve (planTiles h N idx)) (htl : (planTiles h N idx).length < 2 ^ 63)
     (hf : idx.length + (planTiles h N idx).length + 400 ≤ fuel) :
@@ -210,7 +219,12 @@ theorem ReadHashes_eq (fuel h N : Nat) (th : H) (idx : List Nat) (RT : List GTil
         { tree := { N := (N : Int), Hash := th }, tr := { Height := (h : Int), ReadTiles := RT } } (idx.map Int.ofNat) =
       .ok (rhOut (Tile.readHashes node N th h idx serve) ((planTiles h N idx).map toGen)
         (RT ((planTiles h N idx).map toGen)).1 msg) ∧
-      ∀ e, (Tile.readHashes node N th h idx serve).result = .error e → MsgOK (RT ((planTiles h N idx).map toGen)).2 e msg := by
+      (∀ e, (Tile.readHashes node N th h idx serve).result = .error e → MsgOK (RT ((planTiles h N idx).map toGen)).2 e msg) ∧
+      (∀ p, Tile.plan h N idx = .ok p → p.stx ≠ [] →
+        MsgRefine ofBytes (planTiles h N idx) (RT ((planTiles h N idx).map toGen)).1 (RT ((planTiles h N idx).map toGen)).2
+          (Tile.readHashes node N th h idx serve).result msg) := by
+  have hnf : ∀ {b : Bool}, b = true → b = false → False := by
+    intro b h1 h2; rw [h1] at h2; cases h2
   obtain ⟨cs, tiles0, order0, sto, hst, hcov, hps, hvalid, hres, hplan⟩ := plan_decomp h N h1 hN idx
   generalize hr : ({ tree := { N := (N : Int), Hash := th }, tr := { Height := (h : Int), ReadTiles := RT } } :
     Generated.Tile.tileHashReader H) = r
@@ -246,13 +260,14 @@ theorem ReadHashes_eq (fuel h N : Nat) (th : H) (idx : List Nat) (RT : List GTil
     have hpt : planTiles h N idx = [] := by simp [planTiles, hplan]
     have hout : Tile.readHashes node N th h idx serve = { saved := none, result := .error .indexRange } := by
       simp only [Tile.readHashes, hplan]
-    refine ⟨some "indexes not in tree", ?_, ?_⟩
+    refine ⟨some "indexes not in tree", ?_, ?_, ?_⟩
     · simp only [hl2, mbind_ok, mpure, hout, rhOut]
     · intro e he
       rw [hout] at he
       simp only [Except.error.injEq] at he
       subst he
       rfl
+    · intro p hp; rw [hplan] at hp; cases hp
   | ok res =>
     obtain ⟨tiles, order, ito⟩ := res
     rw [hpi] at hl2 hplan
@@ -312,11 +327,16 @@ theorem ReadHashes_eq (fuel h N : Nat) (th : H) (idx : List Nat) (RT : List GTil
       have hidxnil : idx = [] := (Tile.plan_stx_nil h N idx _ hplan hstxnil).2
       have hout : Tile.readHashes node N th h idx serve = { saved := none, result := .ok [] } := by
         simp only [Tile.readHashes, hplan, hstxnil, List.isEmpty_nil, ↓reduceIte]
-      refine ⟨none, ?_, ?_⟩
+      refine ⟨none, ?_, ?_, ?_⟩
       · rw [hout]
         simp only [hs0, Int.natCast_zero, decide_true, ↓reduceIte, makeList_natCast, mbind_ok, mpure, rhOut, hidxnil,
           List.length_nil, List.replicate_zero]
       · intro e he; rw [hout] at he; cases he
+      · intro p hp hne
+        rw [hplan] at hp
+        simp only [Except.ok.injEq] at hp
+        subst hp
+        exact absurd hstxnil hne
     · have hs0' : ¬ (((stx.length : Nat) : Int) = 0) := by omega
       have hstxne : stx.isEmpty = false := by
         cases stx with
@@ -339,13 +359,14 @@ theorem ReadHashes_eq (fuel h N : Nat) (th : H) (idx : List Nat) (RT : List GTil
         simp only [hRT] at hserve
         have hout : Tile.readHashes node N th h idx serve = { saved := none, result := .error .reader } := by
           simp only [Tile.readHashes, hplan, hstxne, Bool.false_eq_true, ↓reduceIte, hserve]
-        refine ⟨some em, ?_, ?_⟩
+        refine ⟨some em, ?_, ?_, ?_⟩
         · simp only [Option.isNone_some, Bool.not_false, ↓reduceIte, mpure, hout, rhOut]
         · intro e he
           rw [hout] at he
           simp only [Except.error.injEq] at he
           subst he
           exact ⟨rfl, by simp⟩
+        · intro p _ _ hr; cases hr
       | none =>
         have hserve := hserve htne
         simp only [hRT] at hserve
@@ -368,13 +389,14 @@ theorem ReadHashes_eq (fuel h N : Nat) (th : H) (idx : List Nat) (RT : List GTil
               intro hc; omega
           have hout : Tile.readHashes node N th h idx serve = { saved := none, result := .error .badTile } := by
             simp only [Tile.readHashes, hplan, hstxne, Bool.false_eq_true, ↓reduceIte, hserve, hwf, Bool.not_false]
-          refine ⟨some "TileReader returned bad result slice (len=%d, want %d)", ?_, ?_⟩
+          refine ⟨some "TileReader returned bad result slice (len=%d, want %d)", ?_, ?_, ?_⟩
           · simp only [hdl', decide_false, Bool.not_false, ↓reduceIte, mpure, hout, rhOut]
           · intro e he
             rw [hout] at he
             simp only [Except.error.injEq] at he
             subst he
             exact Or.inl rfl
+          · intro p _ _ _ hl; exact absurd hl hdl
         have hdl' : (len data = ((tiles.length : Nat) : Int)) := by simp only [len, hdl]; rfl
         rw [if_pos hdl] at hserve
         have hl5 := loop5_eq node ofBytes [] tiles data hdl hw1' tiles.length 0 fuel (by omega) (by omega)
@@ -384,13 +406,14 @@ theorem ReadHashes_eq (fuel h N : Nat) (th : H) (idx : List Nat) (RT : List GTil
         case neg =>
           have hout : Tile.readHashes node N th h idx serve = { saved := none, result := .error .badTile } := by
             simp only [Tile.readHashes, hplan, hstxne, Bool.false_eq_true, ↓reduceIte, hserve, hwd, Bool.not_false]
-          refine ⟨some "TileReader returned bad result slice (%v len=%d, want %d)", ?_, ?_⟩
+          refine ⟨some "TileReader returned bad result slice (%v len=%d, want %d)", ?_, ?_, ?_⟩
           · simp only [hwd, Bool.false_eq_true, ↓reduceIte, mpure, hout, rhOut]
           · intro e he
             rw [hout] at he
             simp only [Except.error.injEq] at he
             subst he
             exact Or.inr (Or.inl rfl)
+          · intro p _ _ _ _; exact ⟨fun _ => rfl, fun hwt => absurd hwt hwd⟩
         have hw := widthsOK_of_model ofBytes tiles data (fun t ht => (hw1' t ht).1) hwd
         simp only [hwd, ↓reduceIte]
         -- the model, up to `authenticate`
@@ -430,12 +453,13 @@ theorem ReadHashes_eq (fuel h N : Nat) (th : H) (idx : List Nat) (RT : List GTil
         case inr =>
           rw [hha]
           simp only [ebind_error]
-          refine ⟨some (hftMsg tiles[sto[m]] n'), ?_, ?_⟩
+          refine ⟨some (hftMsg tiles[sto[m]] n'), ?_, ?_, ?_⟩
           · simp [hftOut, mpure, rhOut]
           · intro e he
             simp only [Except.error.injEq] at he
             subst he
             exact Or.inr (Or.inr ⟨_, hftMsg_ok _ _, rfl⟩)
+          · intro p _ _ _ _; exact ⟨fun hwf => (hnf hwd hwf).elim, fun _ _ => ⟨_, hftMsg_ok _ _, rfl⟩⟩
         rw [hha]
         have hc40 : chk64 ((m : Int) - 1) = .ok ((m : Int) - 1) := by apply chk64_ok <;> omega
         simp only [ebind_ok, hftOut, Option.isNone_none, Bool.not_true, Bool.false_eq_true, ↓reduceIte, e40, hc40, mbind_ok]
@@ -445,12 +469,13 @@ theorem ReadHashes_eq (fuel h N : Nat) (th : H) (idx : List Nat) (RT : List GTil
           rw [hsf] at hl6
           obtain ⟨he6, msg, hmsg, hg6⟩ := hl6
           subst he6
-          refine ⟨some msg, ?_, ?_⟩
+          refine ⟨some msg, ?_, ?_, ?_⟩
           · simp [hg6, mbind_ok, mpure, ebind_error, rhOut]
           · intro e he
             simp only [ebind_error, Except.error.injEq] at he
             subst he
             exact Or.inr (Or.inr ⟨_, hmsg, rfl⟩)
+          · intro p _ _ _ _; exact ⟨fun hwf => (hnf hwd hwf).elim, fun _ _ => ⟨_, hmsg, rfl⟩⟩
         | ok th' =>
           rw [hsf] at hl6
           simp only at hl6
@@ -458,12 +483,16 @@ theorem ReadHashes_eq (fuel h N : Nat) (th : H) (idx : List Nat) (RT : List GTil
           by_cases hth : th' = th
           case neg =>
             have hb : (th' != th) = true := by simp [hth]
-            refine ⟨some "downloaded inconsistent tile", ?_, ?_⟩
+            refine ⟨some "downloaded inconsistent tile", ?_, ?_, ?_⟩
             · simp [hth, hb, mpure, rhOut]
             · intro e he
               simp only [hb, ↓reduceIte, Except.error.injEq] at he
               subst he
               rfl
+            · intro p _ _ _ _
+              refine ⟨fun hwf => (hnf hwd hwf).elim, fun _ hres => ?_⟩
+              simp only [hb, ↓reduceIte, Except.error.injEq] at hres
+              cases hres
           subst hth
           have hlen0 : len (tiles0.map toGen) = ((tiles0.length : Nat) : Int) := by simp [len]
           have hnle : tiles0.length ≤ tiles.length := pok.nstxLe
@@ -476,13 +505,18 @@ theorem ReadHashes_eq (fuel h N : Nat) (th : H) (idx : List Nat) (RT : List GTil
               (tiles.length - tiles0.length) tiles0.length with
           | error e7 =>
             rw [hac] at hl7
-            obtain ⟨msg, hmsg, hg7⟩ := hl7
-            refine ⟨msg, ?_, ?_⟩
+            obtain ⟨hk7, msg, hmsg, hg7⟩ := hl7
+            refine ⟨msg, ?_, ?_, ?_⟩
             · simp [hg7, mbind_ok, mpure, rhOut]
             · intro e he
               simp only [Except.error.injEq] at he
               subst he
               exact hmsg
+            · intro p _ _ _ _
+              refine ⟨fun hwf => (hnf hwd hwf).elim, fun _ hres => ?_⟩
+              simp only [Except.error.injEq] at hres
+              subst hres
+              rcases hk7 with h | h <;> cases h
           | ok u =>
             rw [hac] at hl7
             simp only at hl7
@@ -495,18 +529,37 @@ theorem ReadHashes_eq (fuel h N : Nat) (th : H) (idx : List Nat) (RT : List GTil
               rw [hex] at hl8
               obtain ⟨he8, msg, hmsg, hg8⟩ := hl8
               subst he8
-              refine ⟨wrapErr "bad math in tileHashReader %d %v: lost hash %v: %v" (some msg), ?_, ?_⟩
+              refine ⟨wrapErr "bad math in tileHashReader %d %v: lost hash %v: %v" (some msg), ?_, ?_, ?_⟩
               · simp [hg8, mbind_ok, mpure, rhOut]
               · intro e he
                 simp only [Except.error.injEq] at he
                 subst he
                 exact Or.inr (Or.inr (Or.inr ⟨_, hmsg, rfl⟩))
+              · intro p _ _ _ _
+                refine ⟨fun hwf => (hnf hwd hwf).elim, fun _ hres => ?_⟩
+                simp only [Except.error.injEq] at hres
+                cases hres
             | ok vs =>
               rw [hex] at hl8
               simp only at hl8
-              refine ⟨none, ?_, ?_⟩
+              refine ⟨none, ?_, ?_, ?_⟩
               · simp [hl8, mbind_ok, mpure, rhOut]
               · intro e he; cases he
+              · intro p _ _ _ _
+                exact ⟨fun hwf => (hnf hwd hwf).elim, fun _ hres => by cases hres⟩
+
+/-- the tie without the refinement of the `badTile` text -/
+theorem ReadHashes_eq (fuel h N : Nat) (th : H) (idx : List Nat) (RT : List GTile → List Bytes × Option String)
+    (serve : Tile.Tile → Option (List H)) (h1 : 1 ≤ h) (h57 : h ≤ 57) (hN : N < 2 ^ 62)
+    (hserve : ServeRel ofBytes RT serve (planTiles h N idx)) (htl : (planTiles h N idx).length < 2 ^ 63)
+    (hf : idx.length + (planTiles h N idx).length + 400 ≤ fuel) :
+    ∃ msg, Generated.Tile.tileHashReader_ReadHashes node ofBytes fuel
+        { tree := { N := (N : Int), Hash := th }, tr := { Height := (h : Int), ReadTiles := RT } } (idx.map Int.ofNat) =
+      .ok (rhOut (Tile.readHashes node N th h idx serve) ((planTiles h N idx).map toGen)
+        (RT ((planTiles h N idx).map toGen)).1 msg) ∧
+      ∀ e, (Tile.readHashes node N th h idx serve).result = .error e → MsgOK (RT ((planTiles h N idx).map toGen)).2 e msg := by
+  obtain ⟨msg, a, b, _⟩ := ReadHashes_eq_msg node ofBytes fuel h N th idx RT serve h1 h57 hN hserve htl hf
+  exact ⟨msg, a, b⟩
 
 end
 end ModVerif.TieFnTile
